@@ -36,6 +36,8 @@ PROPS["C17"] = dict(l1_ops=[], l1_algo=["decasteljau"], l2_algo="C17", box=True,
 PROPS["C18"] = dict(l1_ops=[], l1_approx=True, l2_algo="C18", n_l1=(200, 4000), n_l2=(60, 1500))
 PROPS["C13"] = dict(l1_ops=[], l1_ctor=True, l2_algo="C13", n_l1=(1200, 20000), n_l2=(60, 1500))
 PROPS["C08"] = dict(l1_ops=[], custom="c08", n_l1=(0, 0), n_l2=(0, 0))
+PROPS["C09"] = dict(l1_ops=[], custom="c09", n_l1=(0, 0), n_l2=(0, 0))
+PROPS["C10"] = dict(l1_ops=[], custom="c10", n_l1=(0, 0), n_l2=(0, 0))
 PROPS["C07"] = dict(l1_ops=["hat", "vee", "generator", "innerWeights", "bracket", "inner", "sqwnorm", "wnorm"],
                     l2="C07", n_l1=(400, 6000), n_l2=(80, 2000))
 
@@ -246,7 +248,41 @@ def custom_c08(builds, r, thorough, res):
     return bad, viol, n
 
 
-CUSTOM = {"c08": custom_c08}
+def _purity(kind):
+    def run(builds, r, thorough, res):
+        import purity
+        n = 40 if thorough else 5
+        groups = [g for g in ALL_GROUPS if g not in ("R1", "R5")]
+        bad, viol, total = [], [], 0
+        for dbg in (True, False):
+            f = purity.run_c09 if kind == "c09" else purity.run_c10
+            v, lines, cells = f(builds[dbg], groups, r, n, dbg)
+            viol += v
+            total += len(lines)
+            res.add_cells([(kind,) + tuple(c) + (dbg,) for c in cells])
+            # the same (canonical) requests against the model
+            base = []
+            for l in lines:
+                t = l.split()
+                if t[3].startswith(("blk_", "self_")) or t[2] not in MODELLED:
+                    continue
+                t[4] = str(int(t[4]) & 127)
+                base.append(" ".join(t))
+            base = sorted(set(base))
+            impl, model = l1.run([(l, []) for l in base], builds[dbg])
+            total += len(base)
+            for l, a, b in zip(base, impl, model):
+                tk = l.split()
+                eq, why = l1.compare(a, b, (tk[2], tk[3]))
+                if not eq:
+                    bad.append(dict(request=l, tags=[kind], impl=a, model=b, why=why))
+            if lines and len(res.cov["samples"]) < 3:
+                res.cov["samples"].append(dict(kind=kind, request=lines[0]))
+        return bad, viol, total
+    return run
+
+
+CUSTOM = {"c08": custom_c08, "c09": _purity("c09"), "c10": _purity("c10")}
 
 
 def proof_cov(po):
